@@ -188,3 +188,28 @@ func checkHistory(h []hev) (int, string) {
 	}
 	return -1, ""
 }
+
+// watchHistoryOK mirrors Harness.watch_hist_ok: builds that start while no
+// client Rebuild is pending (watcher goroutine / Watch's first build) number at
+// most 1 + the edits so far, in every prefix.
+func watchHistoryOK(h []hev) (int, string) {
+	pending, builds, edits := 0, 0, 0
+	for i, e := range h {
+		switch {
+		case e.Kind == "edit":
+			edits++
+		case e.Kind == "call" && e.Op == "rebuild":
+			pending++
+		case e.Kind == "ret" && e.Op == "rebuild":
+			if pending > 0 {
+				pending--
+			}
+		case e.Kind == "start" && pending == 0:
+			builds++
+			if builds > 1+edits {
+				return i, fmt.Sprintf("build %d was started by the watcher although every change had already been built (%d watcher-started builds, %d edits)", e.B, builds, edits)
+			}
+		}
+	}
+	return -1, ""
+}
